@@ -12,6 +12,15 @@ package parser
 //@ type *Lexer invariant l: forall i int :: 0 <= i && i < len(l.data) ==> l.data[i] >= 0
 //@ type *Lexer invariant l: l.ch == 0 - 1 ==> l.offset >= len(l.data)
 
+// nlcount(d, k) = number of newline runes in d[0..k); the lexer's line number is tied to it, which
+// bounds every reported line by the number of lines of the input (C11 "within the input", C19).
+//@ spec func nlcount(d []rune, k int) int
+//@ spec func nlAt(d []rune, k int) bool
+//@ axiom nl.zero: forall d []rune {nlcount(d, 0)} :: nlcount(d, 0) == 0
+//@ axiom nl.step: forall d []rune, k int {nlAt(d, k)} :: 0 <= k && k < len(d) ==> nlAt(d, k) && nlcount(d, k + 1) == nlcount(d, k) + (d[k] == 10 ? 1 : 0)
+//@ axiom nl.mono: forall d []rune, i int, j int {nlcount(d, i), nlcount(d, j)} :: 0 <= i && i <= j && j <= len(d) ==> nlcount(d, i) <= nlcount(d, j)
+//@ type *Lexer invariant l: l.line + (l.isEOL ? 1 : 0) == nlcount(l.data, l.offset)
+
 // measure used by every scanning loop: runes left, plus one while the current rune is not EOF
 //@ spec func lexMeasure(l *Lexer) int = (len(l.data) - l.offset) + (l.ch == 0 - 1 ? 0 : 1)
 
@@ -24,6 +33,7 @@ package parser
 //@   ensures data: l.data == old(l.data) && (forall i int :: 0 <= i && i < len(l.data) ==> l.data[i] == old(l.data[i]))
 //@   ensures pos: l.column >= 0 && (l.line == old(l.line) + 1 || (l.line == old(l.line) && l.column == old(l.column) + 1))
 //@   ensures errs: l.Errors == old(l.Errors)
+//@   ensures hint: nlAt(l.data, old(l.offset)) || l.offset == old(l.offset)
 
 //@ func (*Lexer).peek
 //@   ensures result == (l.offset >= len(l.data) ? 0 - 1 : l.data[l.offset])
@@ -32,9 +42,9 @@ package parser
 //@   ensures result.Line == l.line && result.Column == l.column
 
 //@ func (*Lexer).skipWhitespace
-//@   ensures l.data == old(l.data) && l.offset >= old(l.offset) && lexPosLE(old(l.line), old(l.column), l.line, l.column)
+//@   ensures l.data == old(l.data) && l.offset >= old(l.offset) && lexPosLE(old(l.line), old(l.column), l.line, l.column) && (old(l.column) >= 0 ==> l.column >= 0)
 //@   loop 0 decreases len(l.data) - l.offset
-//@   loop 0 invariant l.data == old(l.data) && l.offset >= old(l.offset) && lexPosLE(old(l.line), old(l.column), l.line, l.column)
+//@   loop 0 invariant l.data == old(l.data) && l.offset >= old(l.offset) && lexPosLE(old(l.line), old(l.column), l.line, l.column) && (old(l.column) >= 0 ==> l.column >= 0)
 
 //@ func (*Lexer).tokenOf
 //@   ensures result.Type == ty && result.Start.Line == l.line && result.Start.Column == l.column && result.End == result.Start
@@ -46,63 +56,76 @@ package parser
 //@   ensures result != nil
 
 //@ func (*Lexer).lexIdent
-//@   ensures l.data == old(l.data) && l.offset >= old(l.offset) && lexPosLE(old(l.line), old(l.column), l.line, l.column)
+//@   ensures l.data == old(l.data) && l.offset >= old(l.offset) && lexPosLE(old(l.line), old(l.column), l.line, l.column) && (old(l.column) >= 0 ==> l.column >= 0)
 //@   loop 0 decreases len(l.data) - l.offset
-//@   loop 0 invariant l.data == old(l.data) && l.offset >= old(l.offset) && lexPosLE(old(l.line), old(l.column), l.line, l.column)
+//@   loop 0 invariant l.data == old(l.data) && l.offset >= old(l.offset) && lexPosLE(old(l.line), old(l.column), l.line, l.column) && (old(l.column) >= 0 ==> l.column >= 0)
 
 //@ func (*Lexer).lexNumber
-//@   ensures l.data == old(l.data) && l.offset >= old(l.offset) && lexPosLE(old(l.line), old(l.column), l.line, l.column)
+//@   ensures l.data == old(l.data) && l.offset >= old(l.offset) && lexPosLE(old(l.line), old(l.column), l.line, l.column) && (old(l.column) >= 0 ==> l.column >= 0)
 //@   ensures order: posLE(result0.Start, result0.End)
+//@   ensures within: result1 == nil ==> result0.Start.Line == old(l.line) && result0.Start.Column == old(l.column) && result0.End.Line == l.line && result0.End.Column == l.column
+//@   ensures errs: l.Errors == old(l.Errors)
 //@   loop 0 decreases len(l.data) - l.offset
-//@   loop 0 invariant l.data == old(l.data) && l.offset >= old(l.offset) && lexPosLE(old(l.line), old(l.column), l.line, l.column)
+//@   loop 0 invariant l.data == old(l.data) && l.offset >= old(l.offset) && lexPosLE(old(l.line), old(l.column), l.line, l.column) && l.Errors == old(l.Errors) && (old(l.column) >= 0 ==> l.column >= 0)
 //@   loop 0 invariant tt.Start.Line == old(l.line) && tt.Start.Column == old(l.column) && tt.End == tt.Start
 
 //@ func (*Lexer).lexString
-//@   ensures l.data == old(l.data) && l.offset >= old(l.offset) && lexPosLE(old(l.line), old(l.column), l.line, l.column)
+//@   ensures l.data == old(l.data) && l.offset >= old(l.offset) && lexPosLE(old(l.line), old(l.column), l.line, l.column) && (old(l.column) >= 0 ==> l.column >= 0)
 //@   loop 0 decreases lexMeasure(l)
-//@   loop 0 invariant l.data == old(l.data) && l.offset >= old(l.offset) && lexPosLE(old(l.line), old(l.column), l.line, l.column)
+//@   loop 0 invariant l.data == old(l.data) && l.offset >= old(l.offset) && lexPosLE(old(l.line), old(l.column), l.line, l.column) && (old(l.column) >= 0 ==> l.column >= 0)
 
 //@ func (*Lexer).lexRegex
-//@   ensures l.data == old(l.data) && l.offset >= old(l.offset) && lexPosLE(old(l.line), old(l.column), l.line, l.column)
+//@   ensures l.data == old(l.data) && l.offset >= old(l.offset) && lexPosLE(old(l.line), old(l.column), l.line, l.column) && (old(l.column) >= 0 ==> l.column >= 0)
 //@   loop 0 decreases lexMeasure(l)
-//@   loop 0 invariant l.data == old(l.data) && l.offset >= old(l.offset) && lexPosLE(old(l.line), old(l.column), l.line, l.column)
+//@   loop 0 invariant l.data == old(l.data) && l.offset >= old(l.offset) && lexPosLE(old(l.line), old(l.column), l.line, l.column) && (old(l.column) >= 0 ==> l.column >= 0)
 
 //@ func (*Lexer).lexEscape
-//@   ensures l.data == old(l.data) && l.offset >= old(l.offset) && lexPosLE(old(l.line), old(l.column), l.line, l.column)
+//@   ensures l.data == old(l.data) && l.offset >= old(l.offset) && lexPosLE(old(l.line), old(l.column), l.line, l.column) && (old(l.column) >= 0 ==> l.column >= 0)
 
 //@ func (*Lexer).lexDescriptionLine
-//@   ensures l.data == old(l.data) && l.offset >= old(l.offset) && lexPosLE(old(l.line), old(l.column), l.line, l.column)
+//@   ensures l.data == old(l.data) && l.offset >= old(l.offset) && lexPosLE(old(l.line), old(l.column), l.line, l.column) && (old(l.column) >= 0 ==> l.column >= 0)
 //@   loop 0 decreases len(l.data) - l.offset
-//@   loop 0 invariant l.data == old(l.data) && l.offset >= old(l.offset) && lexPosLE(old(l.line), old(l.column), l.line, l.column)
+//@   loop 0 invariant l.data == old(l.data) && l.offset >= old(l.offset) && lexPosLE(old(l.line), old(l.column), l.line, l.column) && (old(l.column) >= 0 ==> l.column >= 0)
 
 //@ func (*Lexer).lexBlockComment
-//@   ensures l.data == old(l.data) && l.offset >= old(l.offset) && lexPosLE(old(l.line), old(l.column), l.line, l.column)
+//@   ensures l.data == old(l.data) && l.offset >= old(l.offset) && lexPosLE(old(l.line), old(l.column), l.line, l.column) && (old(l.column) >= 0 ==> l.column >= 0)
 //@   loop 0 decreases lexMeasure(l)
-//@   loop 0 invariant l.data == old(l.data) && l.offset >= old(l.offset) && lexPosLE(old(l.line), old(l.column), l.line, l.column)
+//@   loop 0 invariant l.data == old(l.data) && l.offset >= old(l.offset) && lexPosLE(old(l.line), old(l.column), l.line, l.column) && (old(l.column) >= 0 ==> l.column >= 0)
 
 //@ func (*Lexer).lexLineComment
-//@   ensures l.data == old(l.data) && l.offset >= old(l.offset) && lexPosLE(old(l.line), old(l.column), l.line, l.column)
+//@   ensures l.data == old(l.data) && l.offset >= old(l.offset) && lexPosLE(old(l.line), old(l.column), l.line, l.column) && (old(l.column) >= 0 ==> l.column >= 0)
 //@   loop 0 decreases len(l.data) - l.offset
-//@   loop 0 invariant l.data == old(l.data) && l.offset >= old(l.offset) && lexPosLE(old(l.line), old(l.column), l.line, l.column)
+//@   loop 0 invariant l.data == old(l.data) && l.offset >= old(l.offset) && lexPosLE(old(l.line), old(l.column), l.line, l.column) && (old(l.column) >= 0 ==> l.column >= 0)
 
 //@ func NewLexer
-//@   ensures result != nil && result.offset == 0 && result.line == 0 && result.column == 0 - 1 && result.ch != 0 - 1
+//@   ensures nl: nlcount(result.data, len(result.data)) == nlcount(runes(data), len(runes(data)))
+//@   ensures result != nil && result.offset == 0 && result.line == 0 && result.column == 0 - 1 && result.ch != 0 - 1 && len(result.Errors) == 0 && !result.isEOL
 //@   ensures forall i int :: 0 <= i && i < len(result.data) ==> result.data[i] >= 0
 
 // Every token has Start <= End, and a call either reports EOF or consumes at least one rune, so
 // AllTokens terminates on every input.
 //@ func (*Lexer).NextToken
 //@   ensures order: posLE(result0.Start, result0.End)
+//@   ensures w1: result1 == nil ==> posOK(result0.Start)
+//@   ensures w2: result1 == nil ==> posOK(result0.End)
+//@   ensures w3: result1 == nil ==> lexPosLE(old(l.line), old(l.column), result0.Start.Line, result0.Start.Column)
+//@   ensures w4: result1 == nil ==> lexPosLE(result0.End.Line, result0.End.Column, l.line, l.column)
+//@   ensures errs: l.Errors == old(l.Errors)
 //@   ensures progress: (result1 == nil && result0.Type == EOF) || l.offset > old(l.offset)
 //@   ensures data: l.data == old(l.data)
 //@   loop 0 decreases lexMeasure(l)
-//@   loop 0 invariant l.data == old(l.data) && l.offset >= old(l.offset)
+//@   loop 0 invariant l.data == old(l.data) && l.offset >= old(l.offset) && lexPosLE(old(l.line), old(l.column), l.line, l.column) && l.Errors == old(l.Errors)
 
 //@ func (*Lexer).AllTokens
+//@   requires len(l.Errors) == 0
 //@   loop 0 decreases len(l.data) - l.offset
 //@   loop 0 invariant l.data == old(l.data)
-//@   loop 0 invariant forall i int :: 0 <= i && i < len(tokens) ==> posLE(tokens[i].Start, tokens[i].End)
-//@   ensures order: result1 ==> (forall i int :: 0 <= i && i < len(result0) ==> posLE(result0[i].Start, result0[i].End))
+//@   loop 0 invariant each: len(l.Errors) == 0 ==> (forall i int :: 0 <= i && i < len(tokens) ==> posOK(tokens[i].Start) && posOK(tokens[i].End) && posLE(tokens[i].Start, tokens[i].End) && tokens[i].Type != EOF)
+//@   loop 0 invariant pairs: len(l.Errors) == 0 ==> (forall i int, j int :: 0 <= i && i < j && j < len(tokens) ==> posLE(tokens[i].End, tokens[j].Start))
+//@   loop 0 invariant upto: len(l.Errors) == 0 ==> (forall i int :: 0 <= i && i < len(tokens) ==> lexPosLE(tokens[i].End.Line, tokens[i].End.Column, l.line, l.column))
+//@   ensures wf: result1 ==> tokWf(result0)
+//@   ensures lines: result1 ==> (forall i int :: 0 <= i && i < len(result0) ==> result0[i].End.Line <= nlcount(l.data, len(l.data)))
+//@   ensures data: l.data == old(l.data) && nlcount(l.data, len(l.data)) == old(nlcount(l.data, len(l.data)))
 
 // ---- walker ---------------------------------------------------------------------------------
 
@@ -227,18 +250,24 @@ package parser
 //@   ensures frame: ww.tokens == old(ww.tokens) && ww.offset >= old(ww.offset) && posLE(old(curEnd(ww)), curEnd(ww))
 //@   ensures ok: result1 == nil ==> ww.offset > old(ww.offset) && result0.SourceNode.Start == ref.SourceNode.Start && posLE(result0.SourceNode.Start, result0.SourceNode.End) && posLE(result0.SourceNode.End, curEnd(ww))
 
-//@ spec opaque fragOrdered(f Fragment) bool =
-//@   | (typeis(f, BlockHeader) ==> posLE(as(BlockHeader, f).SourceNode.Start, as(BlockHeader, f).SourceNode.End))
-//@   | && (typeis(f, Assignment) ==> posLE(as(Assignment, f).SourceNode.Start, as(Assignment, f).SourceNode.End))
-//@   | && (typeis(f, Description) ==> posLE(as(Description, f).SourceNode.Start, as(Description, f).SourceNode.End))
-//@   | && (typeis(f, Comment) ==> posLE(as(Comment, f).SourceNode.Start, as(Comment, f).SourceNode.End))
-//@   | && (typeis(f, CloseBlock) ==> posLE(as(CloseBlock, f).SourceNode.Start, as(CloseBlock, f).SourceNode.End))
+//@ spec opaque fragStart(f Fragment) Position =
+//@   | typeis(f, BlockHeader) ? as(BlockHeader, f).SourceNode.Start : (typeis(f, Assignment) ? as(Assignment, f).SourceNode.Start :
+//@   | (typeis(f, Description) ? as(Description, f).SourceNode.Start : (typeis(f, Comment) ? as(Comment, f).SourceNode.Start :
+//@   | (typeis(f, CloseBlock) ? as(CloseBlock, f).SourceNode.Start : zero(Position)))))
+//@ spec opaque fragEnd(f Fragment) Position =
+//@   | typeis(f, BlockHeader) ? as(BlockHeader, f).SourceNode.End : (typeis(f, Assignment) ? as(Assignment, f).SourceNode.End :
+//@   | (typeis(f, Description) ? as(Description, f).SourceNode.End : (typeis(f, Comment) ? as(Comment, f).SourceNode.End :
+//@   | (typeis(f, CloseBlock) ? as(CloseBlock, f).SourceNode.End : zero(Position)))))
+//@ spec func fragKnown(f Fragment) bool = typeis(f, BlockHeader) || typeis(f, Assignment) || typeis(f, Description) || typeis(f, Comment) || typeis(f, CloseBlock)
+// a fragment lies between the position before it was parsed and the position after
+//@ spec func fragWithin(before Position, f Fragment, after Position) bool = fragKnown(f) && posLE(before, fragStart(f)) && posLE(fragStart(f), fragEnd(f)) && posLE(fragEnd(f), after)
 
 // Every statement fragment has Start <= End (C11); FmtDiffs slices source lines by these (C19).
 //@ func (*Walker).walkStatement
 //@   requires ww.offset < len(ww.tokens) && (ww.tokens[ww.offset].Type == IDENT || ww.tokens[ww.offset].Type == BOOL)
 //@   ensures frame: ww.tokens == old(ww.tokens) && ww.offset > old(ww.offset)
-//@   ensures ordered: result1 == nil ==> result0 != nil && fragOrdered(result0)
+//@   ensures ordered: result1 == nil ==> result0 != nil && fragWithin(old(curEnd(ww)), result0, curEnd(ww))
+//@   ensures mono: posLE(old(curEnd(ww)), curEnd(ww))
 //@   loop 0 decreases len(ww.tokens) - ww.offset
 //@   loop 0 invariant ww.tokens == old(ww.tokens) && ww.offset > old(ww.offset) && posLE(hdr.SourceNode.Start, curEnd(ww)) && hdr.SourceNode.Start == start
 //@   loop 1 decreases len(ww.tokens) - ww.offset
@@ -247,20 +276,33 @@ package parser
 //@ func (*Walker).nextFragment
 //@   requires ww.offset < len(ww.tokens)
 //@   ensures frame: ww.tokens == old(ww.tokens) && ww.offset > old(ww.offset)
-//@   ensures ordered: result1 == nil && result0 != nil ==> fragOrdered(result0)
+//@   ensures same: forall i int :: 0 <= i && i < len(ww.tokens) ==> ww.tokens[i] == old(ww.tokens[i])
+//@   ensures ordered: result1 == nil && result0 != nil ==> fragWithin(old(curEnd(ww)), result0, curEnd(ww))
+//@   ensures mono: posLE(old(curEnd(ww)), curEnd(ww))
 //@   ensures onerror: result1 != nil ==> result0 == nil
 
 //@ func (*Walker).recoverError
 //@   requires err != nil && len(ww.tokens) > 0
-//@   ensures frame: ww.tokens == old(ww.tokens) && ww.offset >= old(ww.offset)
+//@   ensures frame: ww.tokens == old(ww.tokens) && ww.offset >= old(ww.offset) && posLE(old(curEnd(ww)), curEnd(ww))
 //@   loop 0 decreases len(ww.tokens) - ww.offset
-//@   loop 0 invariant ww.tokens == old(ww.tokens) && ww.offset >= old(ww.offset) && len(ww.tokens) > 0
+//@   loop 0 invariant ww.tokens == old(ww.tokens) && ww.offset >= old(ww.offset) && len(ww.tokens) > 0 && posLE(old(curEnd(ww)), curEnd(ww))
+
+//@ func Walk
+//@   requires tokWf(tokens)
+
+// Fragments come out in source order, each with Start <= End, the first at or after the start
+// position and the last ending at or before the last consumed token.
+//@ spec func fragsOrdered(fs []Fragment, from Position, upto Position) bool =
+//@   | (forall i int :: 0 <= i && i < len(fs) ==> fs[i] != nil && fragKnown(fs[i]) && posLE(from, fragStart(fs[i])) && posLE(fragStart(fs[i]), fragEnd(fs[i])) && posLE(fragEnd(fs[i]), upto))
+//@   | && (forall i int, j int :: 0 <= i && i < j && j < len(fs) ==> posLE(fragEnd(fs[i]), fragStart(fs[j])))
 
 //@ func (*Walker).walkFragments
-//@   ensures ordered: forall i int :: 0 <= i && i < len(result0) ==> result0[i] != nil && fragOrdered(result0[i])
+//@   ensures ordered: fragsOrdered(result0, old(curEnd(ww)), curEnd(ww))
+//@   ensures frame: ww.tokens == old(ww.tokens) && (forall i int :: 0 <= i && i < len(ww.tokens) ==> ww.tokens[i] == old(ww.tokens[i]))
 //@   loop 0 decreases len(ww.tokens) - ww.offset
-//@   loop 0 invariant ww.tokens == old(ww.tokens)
-//@   loop 0 invariant forall i int :: 0 <= i && i < len(fragments) ==> fragments[i] != nil && fragOrdered(fragments[i])
+//@   loop 0 invariant ww.tokens == old(ww.tokens) && posLE(old(curEnd(ww)), curEnd(ww))
+//@   loop 0 invariant forall i int :: 0 <= i && i < len(ww.tokens) ==> ww.tokens[i] == old(ww.tokens[i])
+//@   loop 0 invariant fragsOrdered(fragments, old(curEnd(ww)), curEnd(ww))
 
 //@ func (TokenType).IsLiteral
 //@   ensures result == (literal_beg < tok && tok < literal_end)
@@ -270,3 +312,95 @@ package parser
 //@   ensures result == (keyword_beg < tok && tok < keyword_end)
 //@ func (TokenType).CanStartTag
 //@   ensures result == (tok == IDENT || tok == STRING || tok == REGEX || tok == BANG || tok == QUESTION || tok == BOOL)
+
+// ---- formatter fragments and editor diffs (C19) ------------------------------------------------
+
+//@ spec func oneDiffAdded(p *fmter, src SourceNode) bool =
+//@   | len(p.fragments) == old(len(p.fragments)) + 1
+//@   | && p.fragments[len(p.fragments) - 1].FromLine == src.Start.Line && p.fragments[len(p.fragments) - 1].ToLine == src.End.Line + 1
+//@   | && (forall i int :: 0 <= i && i < old(len(p.fragments)) ==> p.fragments[i] == old(p.fragments[i]))
+
+//@ func (*fmter).singleLineTokens
+//@   requires p != nil
+//@   ensures oneDiffAdded(p, src)
+//@ func (*fmter).multiLineToken
+//@   requires p != nil
+//@   ensures oneDiffAdded(p, src)
+//@ func (*fmter).closeBlock
+//@   requires p != nil
+//@   ensures oneDiffAdded(p, block.SourceNode)
+//@ func (*fmter).doBlockHeader
+//@   requires p != nil
+//@   ensures oneDiffAdded(p, block.SourceNode)
+//@ func (*fmter).printComment
+//@   requires p != nil
+//@   ensures oneDiffAdded(p, comment.SourceNode)
+//@ func (*fmter).doDescription
+//@   requires p != nil
+//@   ensures oneDiffAdded(p, desc.SourceNode)
+//@ func (*fmter).doAssignment
+//@   requires p != nil
+//@   ensures oneDiffAdded(p, assign.SourceNode)
+
+// one edit per fragment, covering exactly the fragment's source lines
+//@ func (*fmter).diffFile
+//@   requires p != nil && (forall i int :: 0 <= i && i < len(ff) ==> ff[i] != nil && fragKnown(ff[i]))
+//@   ensures count: len(p.fragments) == old(len(p.fragments)) + len(ff)
+//@   ensures lines: forall j int :: old(len(p.fragments)) <= j && j < len(p.fragments) ==> p.fragments[j].FromLine == fragStart(ff[j - old(len(p.fragments))]).Line && p.fragments[j].ToLine == fragEnd(ff[j - old(len(p.fragments))]).Line + 1
+//@   loop 0 invariant 0 <= idx && idx <= len(ff) && len(p.fragments) == old(len(p.fragments)) + idx
+//@   loop 0 invariant forall j int :: old(len(p.fragments)) <= j && j < len(p.fragments) ==> p.fragments[j].FromLine == fragStart(ff[j - old(len(p.fragments))]).Line && p.fragments[j].ToLine == fragEnd(ff[j - old(len(p.fragments))]).Line + 1
+//@   loop 0 invariant forall i int :: 0 <= i && i < len(ff) ==> ff[i] == old(ff[i])
+
+//@ spec func nlines(s string) int = nlcount(runes(s), len(runes(s))) + 1
+
+// Fragments cover whole source lines inside the input, in source order. Two fragments may share a
+// line (two statements on one line), so consecutive ranges can touch by one line.
+//@ spec func lineOrder(fs []FmtDiff) bool =
+//@   | (forall i int :: 0 <= i && i < len(fs) ==> 0 <= fs[i].FromLine && fs[i].FromLine < fs[i].ToLine)
+//@   | && (forall i int, j int :: 0 <= i && i < j && j < len(fs) ==> fs[i].ToLine - 1 <= fs[j].FromLine)
+//@ spec opaque upTo(fs []FmtDiff, n int) bool = forall i int :: 0 <= i && i < len(fs) ==> fs[i].ToLine <= n
+//@ spec func lineFrags(fs []FmtDiff, n int) bool = lineOrder(fs) && upTo(fs, n)
+// ... and are strictly separated when no two statements share a line
+//@ spec func sepFrags(fs []FmtDiff) bool = forall i int, j int :: 0 <= i && i < j && j < len(fs) ==> fs[i].ToLine <= fs[j].FromLine
+
+//@ func collectFmtFragments
+//@   ensures a1: result1 == nil ==> (forall i int :: 0 <= i && i < len(result0) ==> 0 <= result0[i].FromLine)
+//@   ensures a2: result1 == nil ==> (forall i int :: 0 <= i && i < len(result0) ==> result0[i].FromLine < result0[i].ToLine)
+//@   ensures a3: result1 == nil ==> (forall i int :: 0 <= i && i < len(result0) ==> result0[i].ToLine <= nlines(input))
+//@   ensures a4: result1 == nil ==> (forall i int, j int :: 0 <= i && i < j && j < len(result0) ==> result0[i].ToLine - 1 <= result0[j].FromLine)
+//@   ensures all: result1 == nil ==> lineFrags(result0, nlines(input))
+
+// The edits offered to editors: each within the document (0 <= from <= to <= number of lines) and,
+// when no two statements share a source line, ascending and non-overlapping.
+//@ spec func editsInRange(es []FmtDiff, n int) bool = forall i int :: 0 <= i && i < len(es) ==> 0 <= es[i].FromLine && es[i].FromLine <= es[i].ToLine && es[i].ToLine <= n
+//@ spec func editsAscending(es []FmtDiff) bool = forall i int, j int :: 0 <= i && i < j && j < len(es) ==> es[i].ToLine <= es[j].FromLine
+
+//@ func (*lineSet).rangeLines
+//@   requires ls != nil && 0 <= from && from <= to && to <= len(ls.lines)
+
+// Statements that share a source line are merged into one fragment, after which consecutive
+// fragments are strictly separated.
+//@ func mergeSharedLines
+//@   requires lineOrder(all)
+//@   ensures sep: sepFrags(result)
+//@   ensures order: lineOrder(result)
+//@   ensures range: forall n int {old(upTo(all, n))} :: old(upTo(all, n)) ==> upTo(result, n)
+//@   loop 0 invariant disjoint(merged, all) && (forall i int :: 0 <= i && i < len(all) ==> all[i] == old(all[i]))
+//@   loop 0 invariant sepFrags(merged)
+//@   loop 0 invariant forall i int :: 0 <= i && i < len(merged) ==> 0 <= merged[i].FromLine && merged[i].FromLine < merged[i].ToLine
+//@   loop 0 invariant forall n int {old(upTo(all, n))} :: old(upTo(all, n)) ==> upTo(merged, n)
+//@   loop 0 invariant $iter > 0 ==> len(merged) > 0 && merged[len(merged) - 1].ToLine >= all[$iter - 1].ToLine
+//@   loop 0 invariant forall i int :: 0 <= i && i < len(merged) ==> (forall j int :: $iter <= j && j < len(all) ==> merged[i].FromLine <= all[j].FromLine)
+
+//@ func FmtDiffs
+//@   ensures inrange: result1 == nil ==> editsInRange(result0, nlines(input))
+//@   ensures ascending: result1 == nil ==> editsAscending(result0)
+//@   loop 0 invariant e1: lineOrder(all)
+//@   loop 0 invariant e2: upTo(all, nlines(input))
+//@   loop 0 invariant e3: sepFrags(all)
+//@   loop 0 invariant e4: lines != nil && len(lines.lines) == nlines(input)
+//@   loop 0 invariant e5: disjoint(out, all)
+//@   loop 0 invariant 0 <= $iter && $iter <= len(all) && lastEnd == ($iter == 0 ? 0 - 1 : all[$iter - 1].ToLine)
+//@   loop 0 invariant editsInRange(out, nlines(input))
+//@   loop 0 invariant forall i int :: 0 <= i && i < len(out) ==> out[i].ToLine <= (lastEnd < 0 ? 0 : lastEnd)
+//@   loop 0 invariant editsAscending(out)
